@@ -768,11 +768,6 @@ def classify(ctxs, c):
     blank). C09-F2 and C09-F5 are fixed: a dropped comment or any other non-idempotence anywhere is a
     VIOLATION."""
     k = c["fail"]
-    if k == "lexer-text" and c.get("lexer_diffs") and all(
-            len(d) == 3 and d[0] in ("block", "doc") and d[2].startswith("*") and d[1].split() == d[2][1:].split()
-            for d in c["lexer_diffs"]):
-        # C09-F9: the only difference is ONE star at the very start of a block/doc comment's text
-        return "C09-F9"
     if k == "reordered" and (c.get("close_paren_only") or c.get("key") in ctxs["reordered_set"]):
         return "C09-F6"
     if k == "nonidempotent" and (only_empty_line_comments_added(c.get("out") or "", c.get("out2") or "")
@@ -1287,7 +1282,7 @@ def run(ctx):
         "samples": samples,
         "traces_validated_against_impl": n1 + n2 + n3 + n5 + extra.get("real_documents_laid_out_by_model", 0),
         "part_b_fragment_corollaries": partb,
-        "pending": ["layout-level idempotence as one theorem: needs (a) a proof that lexing the laid-out text returns the item sequence (builder-C05's Model/Lexer.lean is a byte-level longest-match lexer with a keyword table: a round trip over arbitrary identifier/operator adjacency was not attempted) and (b) a parser model for the comment-carrying fragment; today: `expression_layout_text` (layout = comment/token sequence at every width, now incl. member access, calls, dotted chains, argument lists) + token-level round trip with comments on the C08 fragment; document construction of if-else, match, lambdas, tuples, blocks/statements, declarations, type arguments on members; comments on operator tokens in the C08 round trip; whole-comment `post (reflow (post t)) = post t` (today per line); C09-F9 (lexer.rs, modelled by C05); C09-F4 (pinned test), rest of C09-F6 (needs a trailing-comment slot)"],
+        "pending": ["layout-level idempotence as one theorem: needs (a) a proof that lexing the laid-out text returns the item sequence (builder-C05's Model/Lexer.lean is a byte-level longest-match lexer with a keyword table: a round trip over arbitrary identifier/operator adjacency was not attempted) and (b) a parser model for the comment-carrying fragment; today: `expression_layout_text` (layout = comment/token sequence at every width, now incl. member access, calls, dotted chains, argument lists) + token-level round trip with comments on the C08 fragment; document construction of if-else, match, lambdas, tuples, blocks/statements, declarations, type arguments on members; comments on operator tokens in the C08 round trip; whole-comment `post (reflow (post t)) = post t` (today per line); C09-F4 (pinned test), rest of C09-F6 (needs a trailing-comment slot)"],
         "partial_theorems": {"format_idempotent_fragment_partial / roundtrip_with_comments_partial / format_idempotent_with_comments_partial": "C08's decidable side condition RT e; token level; comments on atoms (normal form the parser produces since fix a0babc7); atom table without duplicates",
                              "lineComment/multilineComment_content_equal": "content read modulo the repeated leaders `// ` and ` * ` (commentKey)"},
     })
